@@ -295,13 +295,15 @@ void pm_fill(pm *m, pat p) {
       else if ((p.kind == P_UT) ? (j < i) : (j > i)) pm_set(m, i, j, 0);
     }
     break; }
+  case P_CYC: for (int i = 0; i < r; i++) pm_set(m, i, (i + p.a) % c, 1); break;
+  case P_CYCT: for (int j = 0; j < c; j++) pm_set(m, (j + p.a) % r, j, 1); break;
   default: hdie("pm_fill: bad pattern %d", p.kind);
   }
   pm_mask(m);
 }
 pm *pm_pat(int r, int c, pat p) { pm *m = pm_new(r, c); pm_fill(m, p); return m; }
 const char *pat_str(pat p, char *buf) {
-  static const char *nm[] = {"Z", "O", "U", "LBL", "NLBL", "CHK", "ID", "ANTI", "PR", "ROWS", "COLS", "WORDS", "SHID", "UT", "LT"};
+  static const char *nm[] = {"Z", "O", "U", "LBL", "NLBL", "CHK", "ID", "ANTI", "PR", "ROWS", "COLS", "WORDS", "SHID", "UT", "LT", "CYC", "CYCT"};
   sprintf(buf, "%s(%d,%d)", nm[p.kind], p.a, p.b);
   return buf;
 }
@@ -401,6 +403,8 @@ static int64_t g_replay = -1; static double g_deadline_at = 0; static int g_in_c
 int vx_tier = 0; const char *vx_property = "";
 static int g_argc; static char **g_argv;
 static uint64_t g_sample_stride = 0;
+static uint64_t g_group = 0; static int g_group_mode = 0;
+void vx_group(void) { g_group++; g_group_mode = 1; }
 
 static double now(void) { struct timeval tv; gettimeofday(&tv, NULL); return tv.tv_sec + tv.tv_usec * 1e-6; }
 const char *vx_arg(const char *name, const char *dflt) {
@@ -415,7 +419,7 @@ int vx_case_begin(const char *fmt, ...) {
   uint64_t idx = g_counter++;
   if (g_replay >= 0) { if ((int64_t)idx != g_replay) return 0; }
   else {
-    if (idx % (uint64_t)g_nw != (uint64_t)g_wid) return 0;
+    if ((g_group_mode ? ((g_group * 0x9E3779B97F4A7C15ULL) >> 33) : idx) % (uint64_t)g_nw != (uint64_t)g_wid) return 0;
     if (g_have_resume && idx <= g_resume_after) return 0;
     if (S->deadline_hit) return 0;
     if (g_deadline_at > 0 && (S->w[g_wid].executed & 63) == 0 && now() > g_deadline_at) { S->deadline_hit = 1; return 0; }
@@ -505,7 +509,7 @@ static pid_t spawn(int wid, int have_resume, uint64_t resume_after) {
   pid_t p = fork();
   if (p < 0) hdie("fork failed");
   if (p == 0) {
-    g_wid = wid; g_have_resume = have_resume; g_resume_after = resume_after; g_counter = 0;
+    g_wid = wid; g_have_resume = have_resume; g_resume_after = resume_after; g_counter = 0; g_group = 0; g_group_mode = 0;
     char ef[600]; worker_errfile(wid, ef, sizeof ef);
     int fd = open(ef, O_WRONLY | O_CREAT | O_TRUNC, 0644);
     if (fd >= 0) { dup2(fd, 2); close(fd); }
